@@ -142,6 +142,13 @@ def _hashed(cls, world):
     return make
 
 
+def members(item):
+    """Number of parts an item counts for in a buffer level / sink counter: the direct members of a batch (the library's
+    documented rule: 'the number of Parts contained within the Batch'); whether a nested batch should count its leaves
+    instead is not settled by the properties, so the oracles follow the documented rule."""
+    return len(item.parts) if isinstance(item, Batch) else 1
+
+
 def build(world):
     ctx, spec = world.ctx, world.spec
     WProc = globals()['WProc']
@@ -496,7 +503,7 @@ class Census(Monitor):
                     stored_now = ctx.real(lambda: list(d.stored_parts))
                     for p in stored_now:
                         put(p, f'{n}.buffer')
-                    ctx.require(d.level() == sum(len(leaves(p)) for p in stored_now),
+                    ctx.require(d.level() == sum(members(p) for p in stored_now),
                                 'the buffer reports a number of parts inside it that differs from the parts it stores', n)
                 if k == 'batcher' and d._in_progress_batch is not None:
                     put(d._in_progress_batch, f'{n}.in_progress')
@@ -602,7 +609,7 @@ class BufferMon(Monitor):
         with ctx.notrace():
             for d in w.devices_of('buffer'):
                 stored = ctx.real(lambda: list(d.stored_parts))
-                n_leaves = sum(len(leaves(p)) for p in stored)
+                n_leaves = sum(members(p) for p in stored)
                 ctx.require(d.level() == n_leaves, 'buffer level != number of stored parts', d.name)
                 ctx.require(n_leaves <= d.capacity, 'buffer stores more than its capacity', d.name)
                 last = w.env.simulation_data.get('level', {}).get(d.name)
@@ -1241,7 +1248,7 @@ class DataMon(Monitor):
                     recs = data.get('received_part', {}).get(n, [])
                     nl = 0
                     for i, r in enumerate(recs):
-                        nl += len(leaves(d.collected_parts[i])) if i < len(d.collected_parts) else 1
+                        nl += members(d.collected_parts[i]) if i < len(d.collected_parts) else 1
                     ctx.require(d.received_parts_count == nl, 'sink counter != parts in its received records', n)
             for r, (use, cap) in pool.items():
                 recs_r = data.get('resource_update', {}).get(r, [])
